@@ -217,11 +217,13 @@ def report(prop, mod, tier, seed, ns, m, problems, wall, replay):
         inconclusive.append('fewer than 2 distinct non-trivial cases observed')
 
     replay_paths = []
+    no_evidence = bool(os.environ.get('VERIF_NO_EVIDENCE'))     # sensitivity runs against scratch copies
     if not replay:
         for i, v in enumerate(unlisted[:25]):
             v['nshards'] = ns
-            replay_paths.append(write_replay(prop, v, i))
-        write_evidence(prop, mod, tier, seed, ns, m, wall, matched, unlisted, inconclusive)
+            replay_paths.append('(not written)' if no_evidence else write_replay(prop, v, i))
+        if not no_evidence:
+            write_evidence(prop, mod, tier, seed, ns, m, wall, matched, unlisted, inconclusive)
 
     for text, n in matched.items():
         k = [k for k in known if k['text'] == text][0]
